@@ -14,7 +14,7 @@ pub fn prop() -> Prop {
     Prop {
         id: "C09",
         level: "model_checking",
-        rule: "all streams of <=4 (thorough <=6) rows {k,v,id} over the group keys {\"a\",\"b\",\"\",\"é\",1,null,absent,\"ab\",\"null\",[\"a\"]} (including the empty stream and streams whose every row is dropped) x 15 upstream pipelines (--unique on a selection without the key; two selections under one name; take 35 and skip 3 take 100 among them; none, select, select of the key only (so that rows repeat), filter, unique, sort by id desc, sort by the mixed-type key, skip+take, split, take 0, select+sort+skip+take) x {--group-by=.k, --group-by=(get . \"k\"), --merge} x {json, text output}; long cyclic streams of 17, 40, 300 and 1100 rows; streams with 15..257 distinct keys each coming back; non-trivial = two rows share a key or a row is dropped for its key; distinct by construction",
+        rule: "all streams of <=3 rows {k,v,id} over the 12 group keys {\"a\",\"b\",\"\",\"é\",1,null,absent,\"ab\",\"null\",[\"a\"], a key ending in a backslash, a key holding backslash-t} and of 4 (thorough <=6) rows over a 7-key core of them (including the empty stream and streams whose every row is dropped) x 15 upstream pipelines (--unique on a selection without the key; two selections under one name; take 35 and skip 3 take 100 among them; none, select, select of the key only (so that rows repeat), filter, unique, sort by id desc, sort by the mixed-type key, skip+take, split, take 0, select+sort+skip+take) x {--group-by=.k, --group-by=(get . \"k\"), --merge} x {json, text output}; long cyclic streams of 17, 40, 300 and 1100 rows; streams with 15..257 distinct keys each coming back; non-trivial = two rows share a key or a row is dropped for its key; distinct by construction",
         explanation: "exactly one value must be printed, after the input ended; it is compared (a) with the documented grouping applied to the rows the same pipeline prints without grouping (differential) and (b) with the reference pipeline",
         assumptions: COMMON_ASSUMPTIONS.to_vec(),
         guards: vec!["command-line-respelled", "many-distinct-keys", "empty-input", "no-row-survives", "non-string-key-dropped", "absent-key-dropped", "two-rows-share-a-key", "limiter-before-grouper", "empty-string-key", "non-ascii-key", "text-output"],
@@ -26,7 +26,7 @@ pub fn prop() -> Prop {
 }
 
 fn keys() -> Vec<Option<V>> {
-    vec![Some(V::s("a")), Some(V::s("b")), Some(V::s("")), Some(V::s("é")), Some(V::int(1)), Some(V::Null), None, Some(V::s("ab")), Some(V::s("null")), Some(V::Arr(vec![V::s("a")]))]
+    vec![Some(V::s("a")), Some(V::s("b")), Some(V::s("")), Some(V::s("é")), Some(V::int(1)), Some(V::Null), None, Some(V::s("ab")), Some(V::s("null")), Some(V::Arr(vec![V::s("a")])), Some(V::s("a\\")), Some(V::s("x\\ty"))]
 }
 
 struct Up {
@@ -223,8 +223,15 @@ fn run(ctx: &mut Ctx) {
     let ups = upstreams();
     let maxlen = ctx.tier.pick(4usize, 6);
     for len in 0..=maxlen {
+        // every key for streams of <= 3 rows; longer streams over a 7-key core (two strings, the empty string, a number,
+        // null, an absent key, a key that ends in a backslash)
+        const CORE_KEYS: [usize; 7] = [0, 1, 2, 4, 5, 6, 10];
         let mut todo: Vec<Vec<usize>> = Vec::new();
-        crate::explore::seqs_exact(ks.len(), len, |i| todo.push(i.to_vec()));
+        if len <= 3 {
+            crate::explore::seqs_exact(ks.len(), len, |i| todo.push(i.to_vec()));
+        } else {
+            crate::explore::seqs_exact(CORE_KEYS.len(), len, |i| todo.push(i.iter().map(|j| CORE_KEYS[*j]).collect()));
+        }
         for idx in todo {
             if !ctx.mine() {
                 continue;
